@@ -30,8 +30,11 @@ Lemma pc_modify f s (Q : unit -> state -> Prop) : Q tt (f s) -> pc (modify f) s 
 Proof. unfold pc, modify. auto. Qed.
 
 Definition tlrel (s0 s : state) : Prop := Forall2 (@incl obj) (tl (st_lists s)) (tl (st_lists s0)).
+(* the events only the top-level step emits *)
+Definition top_ev (e : event) : bool :=
+  match e with EvCancelBegin | EvCancelEnd | EvDestroyBegin | EvDestroyEnd => true | _ => false end.
 Definition trx (s0 s : state) : Prop :=
-  exists nw, st_trace s = nw ++ st_trace s0 /\ ~ In EvCancelBegin nw /\ ~ In EvCancelEnd nw.
+  exists nw, st_trace s = nw ++ st_trace s0 /\ forall e, In e nw -> top_ev e = false.
 Definition R (s0 s : state) : Prop := tlrel s0 s /\ trx s0 s.
 
 Lemma f2incl_refl (l : list (list obj)) : Forall2 (@incl obj) l l.
@@ -45,14 +48,14 @@ Proof.
 Qed.
 
 Lemma R_refl s : R s s.
-Proof. split; [apply f2incl_refl|]. exists []. simpl. auto. Qed.
+Proof. split; [apply f2incl_refl|]. exists []. simpl. split; [reflexivity|]. intros e []. Qed.
 
 Lemma R_trans s0 s1 s2 : R s0 s1 -> R s1 s2 -> R s0 s2.
 Proof.
-  intros [A1 [n1 [E1 [B1 C1]]]] [A2 [n2 [E2 [B2 C2]]]]. split.
+  intros [A1 [n1 [E1 B1]]] [A2 [n2 [E2 B2]]]. split.
   - unfold tlrel in *. eapply f2incl_trans; eauto.
   - exists (n2 ++ n1). rewrite E2, E1, app_assoc. split; [reflexivity|].
-    split; intros H; apply in_app_or in H; tauto.
+    intros e H; apply in_app_or in H; destruct H; auto.
 Qed.
 
 Lemma R_keep s0 s s' : st_lists s' = st_lists s -> st_trace s' = st_trace s -> R s0 s -> R s0 s'.
@@ -106,10 +109,10 @@ Proof.
 Qed.
 Lemma pres_modify_keep g : (forall s, st_lists (g s) = st_lists s /\ st_trace (g s) = st_trace s) -> Pres (modify g).
 Proof. intros Hg. apply pres_modify. intros s. destruct (Hg s) as [E1 E2]. rewrite E1. split; [apply f2incl_refl|exact E2]. Qed.
-Lemma pres_emit e : e <> EvCancelBegin -> e <> EvCancelEnd -> Pres (emit e).
+Lemma pres_emit e : top_ev e = false -> Pres (emit e).
 Proof.
-  intros H1 H2 s0 s [A [nw [E [B C]]]]. unfold pc, emit, modify. split; [exact A|].
-  exists (e :: nw). simpl. rewrite E. split; [reflexivity|]. split; intros [H|H]; auto.
+  intros H1 s0 s [A [nw [E B]]]. unfold pc, emit, modify. split; [exact A|].
+  exists (e :: nw). simpl. rewrite E. split; [reflexivity|]. intros x [<-|H]; auto.
 Qed.
 Lemma pres_find_conn sock : Pres (find_conn_by_sock sock).
 Proof. intros s0 s H. exact H. Qed.
@@ -130,7 +133,7 @@ Ltac pres1 :=
   | |- Pres (touch _) => apply pres_touch
   | |- Pres (free_obj _) => apply pres_free
   | |- Pres (find_conn_by_sock _) => apply pres_find_conn
-  | |- Pres (emit _) => apply pres_emit; discriminate
+  | |- Pres (emit _) => apply pres_emit; reflexivity
   | |- Pres (modify _) => apply pres_modify_keep; intros; split; reflexivity
   | |- Pres (if ?b then _ else _) => destruct b
   | |- Pres (match ?x with _ => _ end) => destruct x
@@ -204,8 +207,6 @@ Proof. unfold expect_TG. pres'. Qed.
 Lemma pres_expect_TCL sock : Pres (expect_TCL sock).
 Proof. unfold expect_TCL. pres'. Qed.
 
-Section Shape.
-Variable cf : config.
 
 Lemma pres_take_script t : Pres (take_script t).
 Proof.
@@ -233,6 +234,9 @@ Ltac pres3 :=
   | _ => pres2
   end.
 Ltac go := repeat (pres3 || assumption || (progress auto)).
+
+Section Shape.
+Variable cf : config.
 
 Record Shape (f : nat) : Prop := {
   sh_invoke : forall k r, Pres (invoke cf f k r);
@@ -299,9 +303,9 @@ Proof.
         + inversion A1.
         + inversion A1.
         + inversion A1; subst. eapply f2incl_trans; eauto.
-      - destruct B as [n0 [E0 [B0 C0]]]. destruct B1 as [n1 [E1 [B1 C1]]].
+      - destruct B as [n0 [E0 B0]]. destruct B1 as [n1 [E1 B1]].
         exists (n1 ++ n0). unfold s3. simpl. rewrite E1. unfold s1. simpl. rewrite E0, app_assoc.
-        split; [reflexivity|]. split; intros Hx; apply in_app_or in Hx; tauto. }
+        split; [reflexivity|]. intros x Hx; apply in_app_or in Hx; destruct Hx; auto. }
     exact (CC s0 s3 H3).
 Qed.
 
